@@ -309,6 +309,10 @@ fn large_menu(kind: Kind, tier: Tier) -> Vec<(Cfg, usize)> {
             // ghost hits on both sides so that p is strictly inside (0, size)
             g.extend([Op::Put(4, 0), Op::Put(5, 0), Op::Put(14, 0), Op::Put(15, 0), Op::Put(0, 0)]);
             mk(Cfg::base(Kind::Arc, &[8], 20), g, &mut v);
+            // ghost lists of sizes 2 and 3 with p = 2 < size: |B2| / |B1| is not an integer, so a recent-ghost hit
+            // tells floor from ceiling (and the cap at size does not hide it)
+            let h: Vec<Op> = [5u8, 4, 7, 2, 1].iter().map(|k| Op::Put(*k, 0)).chain([Op::Get(2)]).chain([9u8, 7, 3, 4, 10, 5, 6].iter().map(|k| Op::Put(*k, 0))).collect();
+            mk(Cfg::base(Kind::Arc, &[4], 12), h, &mut v);
         }
         Kind::Wtlfu => {
             let mut c = Cfg::base(Kind::Wtlfu, &[2, 6, 4], 16);
@@ -425,6 +429,17 @@ pub fn plan(prop: &str, tier: Tier) -> Vec<RunSpec> {
             for c in policy_menu(Kind::Raw, tier) {
                 out.push(spec(c, obs_want()));
             }
+            // the same policy with an eviction callback installed (both constructors that take one): the
+            // callback must not change what is evicted, returned or counted
+            for cb in [2u8, 1u8] {
+                let mut c = raw(2, 1, 1);
+                c.callback = cb;
+                c.with_clone = cb == 2;
+                out.push(spec(c, obs_want()));
+            }
+            if !cfg!(feature = "std") {
+                return out;
+            }
             for (c, d) in large_menu(Kind::Raw, tier) {
                 let mut s = spec(c, obs_want());
                 s.max_depth = d;
@@ -444,6 +459,10 @@ pub fn plan(prop: &str, tier: Tier) -> Vec<RunSpec> {
         "C08" => {
             for c in policy_menu(Kind::TwoQ, tier) {
                 out.push(spec(c, obs_want()));
+            }
+            if !cfg!(feature = "std") {
+                // no_std flavour (its own floor/ceil polyfills decide the quota): closures and sweeps only
+                return out;
             }
             for (c, d) in large_menu(Kind::TwoQ, tier) {
                 let mut s = spec(c, obs_want());
@@ -523,16 +542,19 @@ pub fn plan(prop: &str, tier: Tier) -> Vec<RunSpec> {
                 if tier == Tier::Thorough {
                     menu.extend(policy_menu(k, Tier::Quick));
                 }
-                for c in menu {
+                for (ci, c) in menu.into_iter().enumerate() {
                     for (hi, h) in hashers.iter().enumerate() {
                         let mut c = c.clone();
                         c.hasher = *h;
                         c.key_ty = KeyTy::Tracked;
+                        // C03: the iterators read the nodes too (clones, both ends, the provided adaptors)
+                        let iters = prop == "C03" && ci == 0 && hi == 0 && matches!(k, Kind::Raw | Kind::TwoQ | Kind::Arc);
                         // conversions build caches too (under the first hasher; the converted cache uses the default one)
                         c.conversions = k == Kind::Raw && c.callback == 0 && hi == 0;
                         let mut w = obs_want();
                         w.track_alloc = true;
                         w.clone_check = false;
+                        w.iters = iters;
                         out.push(spec(c, w));
                     }
                 }
